@@ -15,6 +15,7 @@ EXPLANATION = (
     "generic_visit(node); the fold literals are interpreted over an integer grid covering all orderings and equal acc+1, acc+v, "
     "max(acc, v), min(acc, v); seed is the constant 0 and the argument order is (sequence, seed, fold). By induction over the "
     "sequence the fold equals len/sum/max-with-0/min-with-0."
+    " (R4, as of round 10) further visit_<Kind> handlers - methods or class-level aliases - must hand back their node with everything below it visited."
 )
 NOT_DECIDED = "the induction over the sequence is stated, not mechanised; behaviour of the backend's Aggregate."
 
